@@ -1,6 +1,6 @@
 (* Correspondence layer for the structure family (C09, C10, C11). *)
 From Coq Require Import List NArith ZArith Bool.
-From Viv Require Import Base.Assoc Base.Tree Model.Paths Model.Steps Model.Struct Model.StructC.
+From Viv Require Import Base.Assoc Base.Tree Model.Paths Model.Steps Model.Struct Model.StructC Model.Fronts.
 Import ListNotations.
 
 Definition opath_eqb (a b : option (list key)) : bool :=
@@ -50,18 +50,19 @@ Record bobs := {
   o_gnodes : list (list key);                (* graph nodes (set) *)
   o_gedges : list (list key * list key);     (* graph edges (set) *)
   o_pubp : list (list key); o_pubs : list (list key); o_pubt : list (list key);
-  o_pubf : list (list key * list (list seg))
+  o_pubf : list (list key * list (list seg));
+  o_front : list (list key * list key)       (* Engine.front: (path, the path its entry was created under) (set) *)
 }.
 
 Fixpoint undn (n : node) : list key :=
   match n with [] => [] | Dn k :: r => k :: undn r | Up :: r => 999%N :: undn r end.
 
-Definition observe_book (b : book) : bobs :=
+Definition observe_book (b : book) (fr : fronts (list key)) : bobs :=
   {| o_procs := map fst (b_procs b); o_steps := map fst (b_steps b);
      o_seq := map undn (seq (b_graph b)); o_gnodes := map undn (gnodes (b_graph b));
      o_gedges := map (fun e => (undn (fst e), undn (snd e))) (gedges (b_graph b));
      o_pubp := map fst (pub_processes b); o_pubs := map fst (pub_steps b); o_pubt := pub_topology b;
-     o_pubf := pub_flow b |}.
+     o_pubf := pub_flow b; o_front := fr |}.
 
 Fixpoint leqb {A} (e : A -> A -> bool) (a b : list A) : bool :=
   match a, b with
@@ -82,7 +83,8 @@ Definition bobs_equ (a b : bobs) : bool :=
   leqb kpath_eqb (o_seq a) (o_seq b) && set_equ kpath_eqb (o_gnodes a) (o_gnodes b) &&
   set_equ edge_eqb (o_gedges a) (o_gedges b) &&
   set_equ kpath_eqb (o_pubp a) (o_pubp b) && set_equ kpath_eqb (o_pubs a) (o_pubs b) &&
-  set_equ kpath_eqb (o_pubt a) (o_pubt b) && set_equ flow_eqb (o_pubf a) (o_pubf b).
+  set_equ kpath_eqb (o_pubt a) (o_pubt b) && set_equ flow_eqb (o_pubf a) (o_pubf b) &&
+  set_equ edge_eqb (o_front a) (o_front b).
 
 (* the engine the harness builds: a holder process (key 12) wired to the colonies A (10) and B (11) *)
 Definition kHolder := 12%N. Definition kA := 10%N. Definition kB := 11%N.
@@ -103,13 +105,17 @@ Fixpoint run_hist (vr : variant) (t : cnode) (b : book) (uid : N) (h : list (lis
     match kapply_ops vr t here ops uid with
     | Err _ => [None]
     | Ok (t', rp, uid') =>
-      (* Engine.apply_update re-reads every reported process/step node (to store the parallelised
-         object): a node created and removed again by the same update makes it raise *)
-      if negb (forallb (fun pp => match cget t' (fst pp) with Some _ => true | None => false end)
-                       (r_process rp ++ r_step rp)) then [None] else
-      match kbook_apply b rp with
+      (* Engine.apply_update registers only what the store still holds after the update *)
+      match kengine_apply b t' rp with
       | Err _ => [None]
-      | Ok b' => Some (annotate t t', observe_book b') :: run_hist vr t' b' uid' r
+      | Ok b' =>
+        (* before every update the harness gives each registered process a front entry tagged with its path *)
+        let fr0 := map (fun po => (fst po, fst po)) (b_procs b) in
+        let fr' := match vr with
+                   | {| v_fix_move := true |} => front_apply (list key) b fr0 (held_reports t' rp)
+                   | _ => front_apply_pinned (list key) b fr0 (held_reports t' rp)
+                   end in
+        Some (annotate t t', observe_book b' fr') :: run_hist vr t' b' uid' r
       end
     end
   end.
@@ -124,7 +130,7 @@ Fixpoint run_nest (t : cnode) (b : book) (uid : N) (h : list (list key * list (s
     match kapply_ops vfixed t here ops uid with
     | Err _ => [None]
     | Ok (t', rp, uid') =>
-      match kbook_apply b rp with
+      match kengine_apply b t' rp with
       | Err _ => [None]
       | Ok b' => Some (annotate t t', map fst (b_procs b')) :: run_nest t' b' uid' r
       end
